@@ -117,6 +117,9 @@ func parseCtrlMsg(str string) ctrlMsg {
 
 	parts := strings.SplitN(str, " ", 2)
 	parts[0] = strings.ToUpper(parts[0])
+	if len(parts) < 2 {
+		parts = append(parts, "") // A missing parameter is an empty parameter
+	}
 
 	msg := ctrlMsg{
 		cmd: command(parts[0]),
